@@ -36,6 +36,7 @@ EXTENDS Builtin
 \* ---- descriptors ---------------------------------------------------------------
 SI(ty)        == [s |-> "int", ty |-> ty]
 SBool         == [s |-> "bool"]
+SFalse        == [s |-> "false"]                \* a type whose only value is what a binary format answers to is_human_readable
 SChar         == [s |-> "char"]
 SF32          == [s |-> "f32"]
 SF64          == [s |-> "f64"]
@@ -93,6 +94,7 @@ NoLead == <<0, <<>>>>
 SerEncM(d, v, m) ==
    CASE d.s = "int"    -> SHead(m, IF v.neg THEN 1 ELSE 0, v.mag)
      [] d.s = "bool"   -> IF v.b THEN <<245>> ELSE <<244>>
+     [] d.s = "false"  -> <<244>>
      [] d.s = "char"   -> SHead(m, 0, FromNat(v.ch))
      [] d.s = "f32"    -> <<250>> \o v.bits
      [] d.s = "f64"    -> <<251>> \o v.bits
@@ -138,6 +140,7 @@ SFieldVecs(fs) ==
 SVals(d) ==
    CASE d.s = "int"    -> IntVals([ty |-> d.ty, nz |-> FALSE])
      [] d.s = "bool"   -> {[k |-> "bool", b |-> TRUE], [k |-> "bool", b |-> FALSE]}
+     [] d.s = "false"  -> {[k |-> "bool", b |-> FALSE]}
      [] d.s = "char"   -> { [k |-> "char", ch |-> c] : c \in {0, 65, 233, 55295, 57344, 1114111} }
      [] d.s = "f32"    -> { [k |-> "float", w |-> 4, bits |-> b] : b \in {<<63, 128, 0, 0>>, <<255, 192, 0, 1>>, <<128, 0, 0, 0>>} }
      [] d.s = "f64"    -> { [k |-> "float", w |-> 8, bits |-> b] : b \in {<<63, 240, 0, 0, 0, 0, 0, 0>>, <<127, 248, 0, 0, 0, 0, 0, 1>>} }
